@@ -29,7 +29,13 @@ Wrap2(S) == {TList(e) : e \in S} \cup {TSet(e) : e \in S} \cup {TMap(e) : e \in 
               \cup {TObj([a |-> e]) : e \in S} \cup {TObjOpt([a |-> e, b |-> TNum], <<"b">>) : e \in S}
 \* selected depth-3 types: optional attributes reachable only through two further constructors
 Inner3 == {TObjOpt([a |-> TStr, b |-> TNum], <<"a">>), TObjOpt([a |-> TStr], <<"a">>), TObj([a |-> TStr])}
-U3 == Wrap2(Wrap2(Inner3))
+\* objects whose attributes are themselves objects / tuples with several members next to a plain sibling: a conformance walk has to
+\* come back from a nested structure (matching, placeholder-matched, or mismatching) to the attributes / elements that follow it
+NestInner == {TObj([x |-> TDyn, y |-> TDyn]), TObj([x |-> TNum, y |-> TBool]), TObj([x |-> TNum, y |-> TStr]), TObjOpt([x |-> TNum, y |-> TBool], <<"y">>), TObj([x |-> TNum]),
+              TTup(<<TDyn, TDyn>>), TTup(<<TNum, TBool>>)}
+Nest == {TObj([a |-> i, b |-> s]) : i \in NestInner, s \in {TStr, TNum}} \cup {TTup(<<i, s>>) : i \in NestInner, s \in {TStr, TNum}}
+        \cup {TObj([a |-> i, b |-> j]) : i \in {TObj([x |-> TDyn, y |-> TDyn]), TObj([x |-> TNum, y |-> TBool])}, j \in {TObj([x |-> TDyn, y |-> TDyn]), TObj([x |-> TStr, y |-> TBool])}}
+U3 == Wrap2(Wrap2(Inner3)) \cup Nest
 U2 == U1 \cup Wrap2(U1 \ U0) \cup U3
 
 \* ---- contract rules.  T(i) is the abstract type of definition i.
@@ -43,7 +49,9 @@ ToneFailed(e, t) ==
          [] r = "StripIs" -> TEquals(e.strip, StripOpt(t))
          [] r = "StripIdem" -> TEquals(e.strip2, e.strip) /\ e.stripeq
          [] r = "JsonNoPanic" -> (e.json.ok \/ e.json.fail # "panic")
-         [] r = "JsonRoundTrip" -> (HasCapsule(t) \/ (e.json.ok /\ TEquals(e.json.t, t) /\ e.json.eq /\ e.json.eqr))}
+         [] r = "JsonRoundTrip" -> (HasCapsule(t) \/ (e.json.ok /\ TEquals(e.json.t, t) /\ e.json.eq /\ e.json.eqr
+                                                       \* the description kept from the first pass over all types, decoded now
+                                                       /\ (Has(e, "json2") => e.json2.ok /\ TEquals(e.json2.t, t) /\ e.json2.eq /\ e.json2.eqr)))}
 
 PairFailed(e, a, b) ==
   IF Has(e, "panic") THEN {"PairNoPanic"} ELSE
